@@ -13,7 +13,7 @@ from ..lexmodel import LexModel, ANY
 from ..pe import Interp, PRaise
 from ..templates import table_keys_with_nodes, Gen
 
-level = "proof"
+level = "other"
 
 # documented glyphs that are not program characters (frozen, one reason each)
 YAML_NON_CODEPAGE_OK = {
